@@ -14,7 +14,9 @@ attribute (tolerance, closedness, solidity) is carried over unchanged: SurfacePo
 Mul<SurfacePoint> impls, PointCloud::transform (points AND normals, element-wise in place), Mesh::transform, Plane3::transform_by
 (representative point normal*d, rebuilt through From<&SurfacePoint3>), Curve2/Curve3::transformed_by, Segment2::transform_by,
 transform_points, the TransformBy impls, Distance2::to_3d / Distance3::to_2d (a, b full; direction rotation-only);
-SurfacePoint::reversed keeps the point and negates the normal."""
+SurfacePoint::reversed keeps the point and negates the normal.
+Mesh::transform moves the vertices on every path (no isometry short-cut); Mesh::project_with_tol applies its optional transform to the query once and
+judges the angle from that moved query (rules shared with C02); Plane3::intersection_distance = (n*d - p).n / (n.m) with n, d of the same plane."""
 NOT_DECIDED = "invariance of any measurement (distances, deviations, fits) under a change of frame: numerical; a general frame-dependence taint analysis was rejected because correct code uses raw coordinates that cancel - only the narrow POSDOT form (a lone projection n.p of a stored position) is decided"
 ASSUMPTIONS = ["nalgebra: &Isometry * OPoint applies rotation and translation; &Isometry * Unit<Vector> / * Vector applies the rotation only"]
 
